@@ -203,6 +203,30 @@ def resolveC (T : Tables) (L : LabTables) (v : FVariant) (basis : BasisSpec) (it
     | .ok out => .ok out
     | .error e => .error (.res e)
 
+/-! ## alias names
+
+`_decompose.py` has `_gate_H = _gate_SNOT`: a gate NAMED `H` (GATE_CLASS_MAP gives it the class of SNOT) is rewritten by
+the rule of SNOT.  The model alphabet `GName` has no `H`; the regenerated table `Gen.ruleAlias` lists such names with
+their canonical name, and `resolveCA` reads an alias as its canonical name.  The translator admits only aliases for
+which this is exact: the canonical name has a template rule, a fixed angle, and is none of the names `resolve_gates`
+compares literally (two-qubit basis gates, SWAP, the Paulis) — so the gate is always rebuilt, never passed through, and
+its own name occurs nowhere in the result. -/
+
+def canonName (al : List (String × GName)) : GName → GName
+  | .other s => match al.lookup s with
+    | some n => n
+    | none => .other s
+  | n => n
+
+def CircItem.canon (al : List (String × GName)) : CircItem → CircItem
+  | .gate g l c => .gate ⟨canonName al g.name, g.targets, g.controls, g.arg⟩ l c
+  | .meas => .meas
+
+/-- `resolve_gates` on a circuit that may use alias names -/
+def resolveCA (T : Tables) (L : LabTables) (al : List (String × GName)) (v : FVariant) (basis : BasisSpec)
+    (items : List CircItem) : Except ErrC (List FGate) :=
+  resolveC T L v basis (items.map (CircItem.canon al))
+
 /-! ## execution under a classical state -/
 
 /-- does the condition hold for the classical bits `σ` (first bit of `bits` = most significant bit of
